@@ -4,6 +4,7 @@ import TinsModel.Wire.Wifi.TheoremsDot11Reparse
 import TinsModel.Wire.Wifi.TheoremsEapol
 import TinsModel.Wire.Wifi.TheoremsEapolReparse
 import TinsModel.Wire.Wifi.TheoremsRadioTap
+import TinsModel.Wire.Wifi.TheoremsCodec
 /-
   Per-layer theorems of the Wifi family for the four wire properties (C01 parse_safe, C02 writesOnly,
   C03 reparse, C04 codec inverses), split by class group:
@@ -13,6 +14,7 @@ import TinsModel.Wire.Wifi.TheoremsRadioTap
     TheoremsDot11Reparse  C03: TLV list round trip, parse ∘ serialize = id on parsed objects
     TheoremsEapol     RC4EAPOL / RSNEAPOL / `EAPOL::from_bytes`
     TheoremsEapolReparse  C03 for the EAPOL key frames
+    TheoremsCodec     C04: decode ∘ encode = id for every typed tagged option and RSNInformation (explicit Repr)
     TheoremsRadioTap  RadioTap: the RadioTapParser walk is memory-safe and terminates, parse safety, FCS trailer writer
 -/
 namespace Tins.Wire.Wifi
